@@ -184,14 +184,18 @@ impl PacketSpace {
             .binary_search_by(|p| p.packet_number.cmp(&ack_frame.largest()))
             .unwrap_or_else(|i| i.saturating_sub(1));
 
+        // ranges come largest first; walk the sent packets downwards instead of every packet
+        // number a range spans: the span is chosen by the peer and can be astronomically large
         for range in ack_frame.iter() {
-            for pn in range.rev() {
-                while index > 0 && self.sent_packets[index].packet_number > pn {
-                    index = index.saturating_sub(1);
+            while index > 0 && self.sent_packets[index].packet_number > *range.end() {
+                index -= 1;
+            }
+            loop {
+                let pn = self.sent_packets[index].packet_number;
+                if !range.contains(&pn) {
+                    break;
                 }
-                if self.sent_packets[index].packet_number == pn
-                    && self.sent_packets[index].state != State::Acked
-                {
+                if self.sent_packets[index].state != State::Acked {
                     algorithm.on_packet_acked(&self.sent_packets[index]);
                     self.sent_packets[index].state = State::Acked;
                     include_ack_eliciting |= self.sent_packets[index].ack_eliciting;
@@ -205,6 +209,10 @@ impl PacketSpace {
                         })
                         .or(Some((pn, self.sent_packets[index].time_sent)));
                 }
+                if index == 0 {
+                    break;
+                }
+                index -= 1;
             }
         }
 
